@@ -234,6 +234,28 @@ def uncheckedScopes (t : String) (mm : MM) : List Scope :=
             { kind := "literals", owner := e.name,
               ents := e.literals.map fun l => { fn := t ++ ".enum_literal_name", ident := l }, reported := false }
         else [])
+    -- names derived from the structure names with a *coarser* conversion than the structure name itself
+    ++ (if t = "python" then
+          -- `<name>_from_jsonable`, `visit_<name>`, … (lower snake) while class names keep abbreviations
+          [ { kind := "derived-structures", owner := [],
+              ents := (mm.enums.map fun e => { fn := "python.function_name", ident := e.name })
+                ++ (mm.classes.map fun c => { fn := "python.function_name", ident := c.name }), reported := false } ]
+        else if t = "golang" then
+          [ -- `Verify<Name>` for every our type, constrained primitives included
+            { kind := "derived-structures", owner := [],
+              ents := mm.types.map fun
+                | .enum e => { fn := "golang.function_name", ident := e.name }
+                | .cprim n => { fn := "golang.function_name", ident := n }
+                | .cls c => { fn := "golang.function_name", ident := c.name }, reported := false },
+            -- `<name>FromStringMap` … private names lower-case the first part
+            { kind := "derived-enums-private", owner := [],
+              ents := mm.enums.map fun e => { fn := "golang.private_function_name", ident := e.name }, reported := false } ]
+          -- private struct fields
+          ++ (mm.classes.filterMap fun c =>
+                if c.abstract then none else
+                some { kind := "private-members", owner := c.name,
+                       ents := c.props.map fun p => { fn := "golang.private_property_name", ident := p }, reported := false })
+        else [])
   else if t = "jsonschema" then
     mm.classes.map fun c =>
       { kind := "properties", owner := c.name,
